@@ -342,6 +342,24 @@ def parts_of(t, _stack=()):
                 seqp.append(("part", mk("from_elem", zero, mk("int", n - hi, "usize"))))
             parts.extend(reversed(seqp))
             break
+        if cur.op == "from_fn":
+            parts.append(("repeat", [("byte", cur.args[1])]))      # array::from_fn(|i| X(i)): element i is X(i)
+            break
+        if cur.op == "collected" and cur.args[0].op == "chained":
+            # a.chain(b).collect(): everything a yields, then everything b yields
+            def halves(x):
+                if x.op == "chained":
+                    return halves(x.args[0]) + halves(x.args[1])
+                return [x]
+            seqp = []
+            for h in halves(cur.args[0]):
+                if h.op == "iter" and h.args[0].op == "agg" and h.args[0].args[0] == "array":
+                    for a in h.args[0].args[1:]:
+                        seqp.append(("byte", a))          # iter::once(x) / [x, y].into_iter(): single elements
+                else:
+                    seqp.append(("part", mk("collected", h)))
+            parts.extend(reversed(seqp))
+            break
         if cur.op == "collected" and cur.args[0].op == "flat_mapped":
             # outer.flat_map(|e| seq(e)).collect(): the concatenation of seq(e) over the elements of outer
             outer, body = cur.args[0].args
@@ -691,6 +709,18 @@ def substitute(t, old, new, _memo=None):
             return new
         r = _memo.get(t.id)
         if r is None:
+            if t.op == "phi":
+                inc = PHI.get(t.args[0]) or {}
+                if not any(_mentions(v, old) for v in inc.values()):
+                    r = t
+                else:
+                    # a join whose incoming values mention `old`: a fresh join over the substituted incoming values
+                    key2 = tuple(t.args[0]) + (("subst", old.id, new.id if is_t(new) else repr(new)),)
+                    r = mk("phi", key2)
+                    _memo[t.id] = r              # (self-references of a loop accumulator map to the new join)
+                    PHI[key2] = {p: substitute(v, old, new, _memo) for p, v in inc.items()}
+                _memo[t.id] = r
+                return r
             args = [substitute(a, old, new, _memo) for a in t.args]
             r = t if all(a is b for a, b in zip(args, t.args)) else mk(t.op, *args)
             _memo[t.id] = r
@@ -698,6 +728,29 @@ def substitute(t, old, new, _memo=None):
     if isinstance(t, tuple):
         return tuple(substitute(a, old, new, _memo) for a in t)
     return t
+
+
+def _mentions(t, x, _seen=None, _n=None):
+    """does term t mention term x, looking through joins?"""
+    seen = set() if _seen is None else _seen
+    stack = [t]
+    n = 0
+    while stack and n < 20000:
+        y = stack.pop()
+        n += 1
+        if isinstance(y, (tuple, frozenset, list)):
+            stack.extend(y)
+            continue
+        if not is_t(y) or y.id in seen:
+            continue
+        seen.add(y.id)
+        if y is x:
+            return True
+        if y.op == "phi":
+            stack.extend((PHI.get(y.args[0]) or {}).values())
+            continue
+        stack.extend(y.args)
+    return False
 
 
 def unroll_literal_loops(parts):
